@@ -61,6 +61,7 @@ def check(ctx):
     estimators = ctx.P.subclasses(det_base) + ctx.P.subclasses(sc_base)
     for c in estimators:
         ctx.guard("C10.a HP-FROZEN", c.name, lambda c=c: check_frozen(ctx, c), c.module.relpath)
+        ctx.guard("C10.a HP-FROZEN", c.name + "|ctor-snapshot", lambda c=c: check_ctor_snapshot(ctx, c), c.module.relpath)
     for c in ctx.P.subclasses(det_base, strict=True):
         if c.name in ("ChangeDetector", "CollectiveAnomalyDetector", "SubsetCollectiveAnomalyDetector"):
             continue
@@ -601,6 +602,94 @@ def check_frozen(ctx, cls):
         ctx.violation(rule, f"{cls.name}|{a}|written-in:{f.name}", f.loc(n), f"hyper-parameter attribute '{a}' is written outside __init__ (in {f.qualname.split('.')[-2]}.{f.name}): fit/predict change the configuration that get_params()/clone() report", found=norm_src(n))
     if not bad:
         ctx.holds(rule, f"{cls.name}|frozen", cls.module.relpath, f"none of the {len(all_methods(ctx, cls))} methods in the class hierarchy writes a hyper-parameter attribute ({', '.join(params) or 'no parameters'})")
+
+
+def _annotation_classes(ctx, init, p):
+    """the repository classes a constructor parameter may hold, read from its annotation (`cost: BaseCost`,
+    `Union[BaseCost, BaseChangeScore]`, `Optional[...]`): the annotated bases with all their subclasses"""
+    ann = None
+    a = init.node.args
+    for arg in list(a.posonlyargs) + list(a.args) + list(a.kwonlyargs):
+        if arg.arg == p:
+            ann = arg.annotation
+    if ann is None:
+        return None
+    out = []
+    for n in ast.walk(ann):
+        nm = n.id if isinstance(n, ast.Name) else (n.attr if isinstance(n, ast.Attribute) else (n.value if isinstance(n, ast.Constant) and isinstance(n.value, str) else None))
+        if not nm:
+            continue
+        for c in ctx.P.classes.values():
+            if c.name == nm:
+                out.extend(ctx.P.subclasses(c))
+    return out or None
+
+
+def check_ctor_snapshot(ctx, cls):
+    """sktime applies nested parameters AFTER the constructor has run again: `set_params(cost__param=v)` calls `reset()`
+    (which re-runs `__init__` with the component as it was) and only then `cost.set_params(param=v)`.  A copy of a component
+    hyper-parameter taken in `__init__` (`self._x = cost.clone()`) therefore keeps the OLD nested parameters while
+    get_params() reports the new ones: the object differs from a freshly constructed one (F-31).  Copies belong in
+    `_fit`.  A copy whose every constructor parameter is overridden on the spot (`clone().set_params(param=None)` of a
+    class whose only parameter is `param`) snapshots nothing that can change and is accepted."""
+    rule = "C10.a HP-FROZEN"
+    init, params = init_params(ctx, cls)
+    if init is None or (init.cls is not None and init.cls.qualname != cls.qualname):
+        return
+    me = self_name(init)
+    alias = {p: p for p in params}
+    for n in ast.walk(init.node):
+        if isinstance(n, ast.Assign) and len(n.targets) == 1 and isinstance(n.targets[0], ast.Name):
+            v = n.value
+            if isinstance(v, ast.Name) and v.id in alias:
+                alias[n.targets[0].id] = alias[v.id]
+            elif isinstance(v, ast.Attribute) and isinstance(v.value, ast.Name) and v.value.id == me and v.attr in params:
+                alias[n.targets[0].id] = v.attr
+
+    def component(e):
+        if isinstance(e, ast.Name) and e.id in alias:
+            return alias[e.id]
+        if isinstance(e, ast.Attribute) and isinstance(e.value, ast.Name) and e.value.id == me and e.attr in params:
+            return e.attr
+        return None
+
+    parents = {}
+    for n in ast.walk(init.node):
+        for ch in ast.iter_child_nodes(n):
+            parents[id(ch)] = n
+    found = 0
+    for n in ast.walk(init.node):
+        if not (isinstance(n, ast.Call) and isinstance(n.func, ast.Attribute) and n.func.attr in ("clone", "copy", "deepcopy", "__copy__", "__deepcopy__") or (isinstance(n, ast.Call) and ast.unparse(n.func) in ("copy.copy", "copy.deepcopy", "deepcopy", "clone") and n.args)):
+            continue
+        recv = n.func.value if isinstance(n.func, ast.Attribute) and n.func.attr in ("clone", "copy", "deepcopy", "__copy__", "__deepcopy__") and not (isinstance(n.func.value, ast.Name) and n.func.value.id == "copy") else (n.args[0] if n.args else None)
+        comp = component(recv) if recv is not None else None
+        if comp is None:
+            continue
+        found += 1
+        # overridden on the spot?
+        over = set()
+        par = parents.get(id(n))
+        if isinstance(par, ast.Attribute) and par.attr == "set_params" and isinstance(parents.get(id(par)), ast.Call):
+            call = parents[id(par)]
+            if not any(k.arg is None for k in call.keywords):
+                over = {k.arg for k in call.keywords}
+        classes = _annotation_classes(ctx, init, comp)
+        key = f"{cls.name}|{comp}|ctor-snapshot"
+        msg = f"__init__ takes no copy of the component hyper-parameter '{comp}' that could go stale: nested set_params({comp}__<param>=...) is applied after __init__ has re-run, so a copy made here keeps the old nested parameters (copies belong in _fit)"
+        if classes is None:
+            if over:
+                ctx.undecided(rule, key, init.loc(n), "a copy of a component is re-configured in __init__, but the classes the component may have are not annotated: cannot tell whether every parameter is overridden", found=norm_src(n))
+            else:
+                ctx.violation(rule, key, init.loc(n), msg, found=norm_src(parents.get(id(n), n))[:100], expected=f"self.{comp}.clone() in _fit")
+            continue
+        cparams = set()
+        for c in classes:
+            ci, cp = init_params(ctx, c)
+            cparams |= set(cp)
+        left = sorted(cparams - over)
+        ctx.check(not left, rule, key, init.loc(n), msg, found=f"{norm_src(parents.get(id(par), n) if over else n)[:100]} leaves {left} of the copy as they were at construction" if left else f"every parameter of the copy ({sorted(cparams)}) is overridden on the spot", expected=f"self.{comp}.clone() in _fit")
+    if not found:
+        ctx.holds(rule, f"{cls.name}|ctor-snapshot", init.loc(), "__init__ takes no copy of a component hyper-parameter", nontrivial=False)
 
 
 def _forwarded_to_super(ctx, cls, init, p):
